@@ -1,5 +1,6 @@
 //! rdh — correspondence harness for rand_distr. Reads one command per line on stdin,
 //! writes one result line per command on stdout (prefixed by the command tag).
+mod alias;
 mod rng;
 mod tree;
 mod wt;
@@ -16,6 +17,19 @@ fn tree_line(toks: &[&str]) -> String {
     dispatch_wty!(ty, go, seed, ops)
 }
 
+fn alias_line(toks: &[&str]) -> String {
+    let ty = toks[1];
+    let seed = u64::from_str_radix(toks[2], 16).expect("seed");
+    let rest = &toks[3..];
+    fn go<W: alias::AW>(seed: u64, rest: &[&str]) -> String
+    where
+        <W as rand::distr::uniform::SampleUniform>::Sampler: core::fmt::Debug,
+    {
+        alias::run::<W>(seed, rest)
+    }
+    dispatch_wty!(ty, go, seed, rest)
+}
+
 fn main() {
     std::panic::set_hook(Box::new(|_| {}));
     let stdin = std::io::stdin();
@@ -29,6 +43,7 @@ fn main() {
         }
         let r = match toks[0] {
             "tree" => tree_line(&toks),
+            "alias" => alias_line(&toks),
             "ping" => "pong".to_string(),
             other => format!("unknown:{}", other),
         };
